@@ -474,13 +474,43 @@ package interpreter
 //@   invariant [now] evN() > 0 ==> stateIsPost(evN()-1)
 //@   invariant [start] evN() == 0 ==> curMD() == store(old(curMD()), envTable(newEnvironement), emptyDom) && curMV() == old(curMV()) && curMC() == store(old(curMC()), envTable(newEnvironement), 0) && curEV() == old(curEV()) && stdoutN == old(stdoutN) && stderrN == old(stderrN) && utils.HadRuntimeError == old(utils.HadRuntimeError)
 
-//@ func (f *Function) Call [C04,C07]
+//@ func (f *Function) Call [C04,C03,C07]
 //@ requires [recv] f != nil
 //@ requires [interp] i != nil
+//@ let decl = f.Declaration
+//@ let np = len(f.Declaration.Params)
+// (pairwise distinct parameter names, stated through an arbitrary indexing of the names: nameIndex(P[k]) == k for all k)
+//@ let distinctParams = distinctParamsOf(f.Declaration)
+//@ defines distinctParamsOf(f.Declaration) ==> forall(a, 0, len(f.Declaration.Params), nameIndex(f.Declaration.Params[a].Lexeme) == a)
+// the activation scope: a fresh child of the closure scope (never of the caller's scope), holding the function's own name and
+// the parameters bound by position; then the body statements in order, in that scope, not in REPL mode
 //@ loop 1:
 //@   invariant [flagmono] old(utils.HadRuntimeError) ==> utils.HadRuntimeError
+//@   invariant [scope] functionEnv != nil && !old(envAllocated(now(functionEnv))) && envParent(functionEnv) == f.Closure && !old(mapAllocated(now(envTable(functionEnv))))
+//@   invariant [log] evN() == 0 && curEV() == old(curEV()) && stdoutN == old(stdoutN) && stderrN == old(stderrN) && utils.HadRuntimeError == old(utils.HadRuntimeError)
+//@   invariant [frame] forall(r, Int, old(mapAllocated(r)) ==> sel(curMD(), r) == sel(old(curMD()), r) && sel(curMV(), r) == sel(old(curMV()), r) && sel(curMC(), r) == sel(old(curMC()), r))
+//@   invariant [boundhas] forall(k, 0, iter, envHere(functionEnv, decl.Params[k].Lexeme))
+//@   invariant [boundval] distinctParams ==> forall(k, 0, iter, objGet(envTable(functionEnv), decl.Params[k].Lexeme) == old(elem(arguments, nameIndex(decl.Params[k].Lexeme))))
+//@   invariant [self] (forall(j, 0, iter, decl.Params[j].Lexeme != decl.Name.Lexeme)) ==> envHere(functionEnv, decl.Name.Lexeme) && objGet(envTable(functionEnv), decl.Name.Lexeme) == VPtr(TAG_p_interpreter_Function, f)
 //@ loop 2:
 //@   invariant [flagmono] old(utils.HadRuntimeError) ==> utils.HadRuntimeError
+//@   invariant [scope] functionEnv != nil && !old(envAllocated(now(functionEnv))) && envParent(functionEnv) == f.Closure && !old(mapAllocated(now(envTable(functionEnv))))
+//@   invariant [log] evN() == iter
+//@   invariant [events] forall(k, 0, iter, evalAt(k, decl.Body[k], functionEnv, false) && sigT(k) == 0)
+//@   invariant [chain] forall(k, 1, iter, follows(k))
+//@   invariant [now] iter > 0 ==> stateIsPost(iter-1)
+//@   invariant [pre0] iter > 0 ==> preEV(0) == old(curEV()) && preOut(0) == old(stdoutN) && preErr(0) == old(stderrN) && preFlag(0) == old(utils.HadRuntimeError) && forall(r, Int, old(mapAllocated(r)) ==> sel(preMD(0), r) == sel(old(curMD()), r) && sel(preMV(0), r) == sel(old(curMV()), r)) && (distinctParams ==> forall(k, 0, np, sel(sel(preMD(0), envTable(functionEnv)), decl.Params[k].Lexeme) && sel(sel(preMV(0), envTable(functionEnv)), decl.Params[k].Lexeme) == old(elem(arguments, nameIndex(decl.Params[k].Lexeme)))))
+//@   invariant [start] iter == 0 ==> curEV() == old(curEV()) && stdoutN == old(stdoutN) && stderrN == old(stderrN) && utils.HadRuntimeError == old(utils.HadRuntimeError) && forall(r, Int, old(mapAllocated(r)) ==> sel(curMD(), r) == sel(old(curMD()), r) && sel(curMV(), r) == sel(old(curMV()), r)) && (distinctParams ==> forall(k, 0, np, envHere(functionEnv, decl.Params[k].Lexeme) && objGet(envTable(functionEnv), decl.Params[k].Lexeme) == old(elem(arguments, nameIndex(decl.Params[k].Lexeme)))))
+//@ ensures [noerr] result1 == nil
+//@ ensures [activation] evN() > 0 ==> !old(envAllocated(now(evEnv(0)))) && envParent(evEnv(0)) == f.Closure && !old(mapAllocated(now(envTable(evEnv(0))))) [C03,C04]
+// positional binding: with pairwise distinct parameter names (nameIndex(P[k]) == k), parameter k is bound to argument k
+//@ ensures [binding] evN() > 0 && distinctParams ==> forall(k, 0, np, sel(sel(preMD(0), envTable(evEnv(0))), decl.Params[k].Lexeme) && sel(sel(preMV(0), envTable(evEnv(0))), decl.Params[k].Lexeme) == old(elem(arguments, nameIndex(decl.Params[k].Lexeme)))) [C04]
+//@ ensures [positional] distinctParams ==> forall(k, 0, np, nameIndex(decl.Params[k].Lexeme) == k) [C04]
+//@ ensures [frame0] evN() > 0 ==> preEV(0) == old(curEV()) && preOut(0) == old(stdoutN) && preErr(0) == old(stderrN) && preFlag(0) == old(utils.HadRuntimeError) && forall(r, Int, old(mapAllocated(r)) ==> sel(preMD(0), r) == sel(old(curMD()), r) && sel(preMV(0), r) == sel(old(curMV()), r)) [C04,C03]
+//@ ensures [body] evN() <= len(decl.Body) && forall(k, 0, evN(), evalAt(k, decl.Body[k], evEnv(0), false)) && forall(k, 1, evN(), follows(k)) && forall(k, 0, evN()-1, sigT(k) == 0) && (evN() > 0 ==> stateIsPost(evN()-1)) [C04,C05]
+//@ ensures [return] evN() > 0 && sigT(evN()-1) == 3 ==> result0 == evSigValue(evN()-1) [C04]
+//@ ensures [noreturn] (evN() == 0 || sigT(evN()-1) != 3) ==> result0 == nil [C04]
+//@ ensures [complete] evN() < len(decl.Body) ==> evN() > 0 && sigT(evN()-1) != 0 [C04]
 
 //@ func (i *Interpreter) Interpret [C05,C06,C07]
 //@ requires [interp] i != nil
